@@ -189,7 +189,8 @@ type ContentSpec struct {
 	// ErrKind selects the identity of the error the producer fails with: "" (a plain sentinel) |
 	// eof | wrapped-eof | unexpected-eof | short-write | closed | canceled | open ("open": the
 	// source cannot be opened any more when the message is rendered although it could when it
-	// was attached — sources "fs" and "file" only; FailAt is irrelevant)
+	// was attached — sources "fs" and "file" only; FailAt is irrelevant) | seek (source
+	// "readseeker" only: every Read works, Seek fails)
 	ErrKind string `json:"errKind,omitempty"`
 }
 
@@ -381,7 +382,7 @@ func (r *faultReader) Read(b []byte) (int, error) {
 	}
 	data := p.Spec.Data
 	limit := len(data)
-	fail := p.failing()
+	fail := p.failing() && p.Spec.ErrKind != "seek" // "seek": reads are fine, the rewind is not
 	if fail && p.Spec.FailAt < limit {
 		limit = p.Spec.FailAt
 	}
@@ -418,6 +419,12 @@ func (r *faultReader) Read(b []byte) (int, error) {
 }
 
 func (r *faultReader) Seek(off int64, whence int) (int64, error) {
+	if p := r.p; p.Spec.Fail && p.Spec.ErrKind == "seek" && (p.Spec.FailOnCall == 0 || p.Spec.FailOnCall == p.Calls) {
+		// a source that can be read but not rewound (a pipe behind an *os.File, a forward-only
+		// stream): the producer has failed, if only after its last byte
+		p.Fired++
+		return 0, &fs.PathError{Op: "seek", Path: "source", Err: errors.New("illegal seek")}
+	}
 	switch whence {
 	case io.SeekStart:
 		r.pos = int(off)
